@@ -45,9 +45,10 @@ const (
 	nSegment         // named after the last path segment: handler name = a group name after mangling
 	nCase            // Abc, AbC, Abc0, AbC0: equal after lower-casing (but distinct handler file names), explicit digit suffixes
 	nFile            // PingTest, ListWindows, GetArm64, PushIos: snake-cased they end in a suffix the go tool gives a meaning (_test, _GOOS, _GOARCH)
+	nSameFile        // GetURL, GetUrl, PingTest, PingTestHandler: different handler names whose snake-cased file names coincide
 )
 
-var schemeName = []string{"distinct", "same", "segment", "case-digit", "file-suffix"}
+var schemeName = []string{"distinct", "same", "segment", "case-digit", "file-suffix", "same-file"}
 
 func segmentName(p string) string {
 	segs := strings.Split(strings.Trim(p, "/"), "/")
@@ -70,6 +71,8 @@ func nameFor(scheme, i int, p string) string {
 		return []string{"Abc", "AbC", "Abc0", "AbC0"}[i%4]
 	case nFile:
 		return []string{"PingTest", "ListWindows", "GetArm64", "PushIos"}[i%4]
+	case nSameFile:
+		return []string{"GetURL", "GetUrl", "PingTest", "PingTestHandler"}[i%4]
 	}
 	return fmt.Sprintf("H%d", i+1)
 }
@@ -172,7 +175,7 @@ func families(thorough bool) []*family {
 	deep := cross(get, []string{"/a", "/a/b", "/a/b/a", "/a/b/b", "/a/a/a", "/b/b/a", "/a/b/a/"})
 	// the empty service (no HTTP-annotated method) and handler names that turn into special file names
 	fs = append(fs, &family{name: "the empty route set x 8 option sets", lists: [][]pv{{}}, names: []int{nDistinct}, opts: all8})
-	add("pairs, handler names with go-tool file suffixes, structure alphabet, depth<=2, root", small, 2, []int{nFile}, all8)
+	add("pairs, handler names with go-tool file suffixes / coinciding file names, structure alphabet, depth<=2, root", small, 2, []int{nFile, nSameFile}, all8)
 	if !thorough {
 		add("singles, collision alphabet, depth<=2, trailing-slash variants, root", cross([]string{"GET", "ANY"}, pathsOver(alphaCollision, 2, true, true)), 1, []int{nSegment}, all8)
 		add("pairs, structure alphabet, depth<=2, trailing-slash variants, root", cross(allVerbs, pathsOver(alphaStruct, 2, true, true)), 2, []int{nDistinct}, all8)
